@@ -90,10 +90,19 @@ def main():
   out['detected_by'] = [c for c, r in results.items() if r['exit'] == 1 and r['violation_lines'] > 0]
   dest = os.path.join(VERIF, 'seeded', f'{a.prop}-{label}')
   os.makedirs(dest, exist_ok=True)
+  if a.skip_suite and os.path.exists(os.path.join(dest, 'meta.json')):
+    try:
+      prev = json.load(open(os.path.join(dest, 'meta.json')))['verification']
+      for k in ('suite_passed', 'suite_failed'):
+        if k in prev:
+          out[k] = prev[k]
+      out['ran'].append('full suite result carried over from the earlier confirmation run of this same patch')
+    except Exception:  # pylint: disable=broad-exception-caught
+      pass
   shutil.copy(os.path.join(mdir, 'patch.diff'), os.path.join(dest, 'patch.diff'))
   shutil.copy(os.path.join(mdir, 'demo.py'), os.path.join(dest, 'demo.py'))
   confirmed = (out['demo_clean_rc'] == 0 and out['demo_patched_rc'] != 0 and
-               (a.skip_suite or (out.get('suite_passed') == 657 and out.get('suite_failed') == 0)))
+               (out.get('suite_passed') == 657 and out.get('suite_failed') == 0))
   meta = dict(property=a.prop,
               summary=meta_in.get('summary', ''),
               needs_to_manifest=meta_in.get('needs_to_manifest', ''),
